@@ -388,6 +388,21 @@ def run_task(args):
     np.random.seed(seed % (2**31))
     vk = VK(c, cfg, "sym", rng=rng, tier=tier)
     out = {"prop": prop, "contract": cname, "cfg": cfgkey(cfg), "engine": c.engine, "obl": [], "error": None}
+    executed = set()
+    tracing = bool(os.environ.get("VERIF_TRACE"))
+    if tracing:  # function-level execution coverage of the real code during the symbolic run (coverage report only)
+        import sys as _sys
+        import threading as _th
+
+        def _prof(frame, event, arg):
+            if event == "call":
+                co_ = frame.f_code
+                fn_ = co_.co_filename
+                if "/felupe/" in fn_ and "/site-packages/" not in fn_:
+                    executed.add((fn_, co_.co_firstlineno, co_.co_name))
+
+        _sys.setprofile(_prof)
+        _th.setprofile(_prof)
     try:
         with symnp.symbolic():
             c.fn(vk, cfg)
@@ -396,6 +411,13 @@ def run_task(args):
     except Exception as e:
         out["error"] = f"{type(e).__name__}: {e}\n" + traceback.format_exc(limit=8)
         vk.obl.append({"name": vk.prefix + "/run", "status": "error", "backend": "checker", "seconds": 0, "detail": out["error"][:1500], "family": vk.prefix + "/run"})
+    if tracing:
+        import sys as _sys
+        import threading as _th
+
+        _sys.setprofile(None)
+        _th.setprofile(None)
+        out["executed"] = sorted(executed)
     out["sym_seconds"] = round(time.time() - t0, 3)
     # vacuity: cover check of requires
     try:
